@@ -11,6 +11,13 @@ Open Scope N_scope.
 
 Definition flen (b : bytes) : N := N.of_nat (length b).
 
+(* The header is a 16-bit field: SendData writes uint16(len(data)), i.e. the length modulo 2^16.
+   For messages shorter than 65536 bytes (everything netceptor produces: MTU 16384 + 36) the
+   header is the exact length and the receiver's int arithmetic "msgSize + 2" (at most 65537)
+   cannot wrap, so the unbounded N arithmetic of this model is exact on that whole range
+   (Proofs/Framer.v frame_header_exact, pop_in_bounds).  From 65536 bytes on the code silently
+   truncates the length; the model does the same (frame_header_wraps, oversize_frame_garbled). *)
+
 Definition frame (m : bytes) : bytes :=
   let n := flen m in (n mod 256) :: ((n / 256) mod 256) :: m.
 
@@ -51,6 +58,11 @@ Fixpoint recv_loop (fuel : nat) (buf : bytes) (chunks : list bytes) : list bytes
 Definition stream (msgs : list bytes) : bytes := concat (map frame msgs).
 
 (* ---------- correspondence cases ---------- *)
+
+(* compact literal for long test payloads: n bytes s, s+1, ... modulo 251 *)
+Fixpoint ramp_nat (k : nat) (s : N) : bytes :=
+  match k with O => [] | S k' => (s mod 251) :: ramp_nat k' (s + 1) end.
+Definition ramp (n s : N) : bytes := ramp_nat (N.to_nat n) s.
 
 Fixpoint beq_blist (a b : list bytes) : bool :=
   match a, b with
